@@ -129,4 +129,13 @@ def iaddDenseJ (j : Json) : Except String Json := do
   pure <| Json.mkObj [("data", Json.arr ((List.range (out.rows * out.cols)).map fun p => ciJ (out.data p)).toArray),
     ("abs", absJ out.rows out.cols out.abs)]
 
+def matmulCsrDenseJ (j : Json) : Except String Json := do
+  let a ← csrOf j "a"
+  let b ← denseBufOf j "b"
+  let o ← denseBufOf j "out"
+  let s ← ciOf (← j.getObjVal? "scale")
+  let out := matmulCsrDense a b o s
+  pure <| Json.mkObj [("data", Json.arr ((List.range (out.rows * out.cols)).map fun p => ciJ (out.data p)).toArray),
+    ("abs", absJ out.rows out.cols out.abs)]
+
 end Qv.Drv.C01
